@@ -1,5 +1,6 @@
 import NrDaemon.Driver.Core
 import NrDaemon.Model.Rules
+import NrDaemon.Model.Regex
 /-!
   Engine `rules`: the real `NewMetricRulesFromJSON` + `MetricRules.Apply` on rule lists whose expressions are anchored
   or unanchored literals.  Op: `rules apply n=<name hex> r=<order>:<flags>:<anchor>:<lit hex>:<repl hex>;…`
@@ -37,3 +38,70 @@ def rulesStep (t : Tokens) (impl : Option String) : StepOut :=
       | none => []
     { model := model, specFails := fails }
   | _ => { model := "bad-op" }
+
+/-! ### op `rules rx`: rules whose expressions are regular expressions (`Model/Regex.lean`)
+
+`rules rx n=<name hex> r=<order>~<flags>~<postfix>~<go expression hex>~<replacement hex>;…`  The generator renders each
+expression twice: in Go syntax for the real code and in a postfix encoding for the model (`c61` literal, `.`, `k0_61-7a`
+class, `S` sequence, `A` alternation, `T` star, `P` plus, `O` optional, `g1` group, `B` `^`, `E` `$`). -/
+
+def hexChar1 (s : String) : Char :=
+  match parseHex s with
+  | some [b] => Char.ofNat b.toNat
+  | _ => '?'
+
+def parseRe (s : String) : Option Re :=
+  let step (st : Option (List Re)) (tok : String) : Option (List Re) :=
+    match st with
+    | none => none
+    | some stack =>
+      if tok.startsWith "c" then some (Re.chr (hexChar1 (tok.drop 1).toString) :: stack)
+      else if tok == "." then some (Re.any :: stack)
+      else if tok.startsWith "k" then
+        let parts := (tok.drop 1).toString.splitOn "_"
+        let neg := parts.head? == some "1"
+        let rs := (parts.drop 1).filterMap (fun r => match r.splitOn "-" with
+          | [a, b] => some (hexChar1 a, hexChar1 b)
+          | _ => none)
+        some (Re.cls neg rs :: stack)
+      else if tok == "B" then some (Re.bol :: stack)
+      else if tok == "E" then some (Re.eol :: stack)
+      else if tok.startsWith "g" then
+        match stack with
+        | a :: rest => some (Re.grp (((tok.drop 1).toString.toNat?).getD 0) a :: rest)
+        | _ => none
+      else match tok, stack with
+        | "S", b :: a :: rest => some (Re.seq a b :: rest)
+        | "A", b :: a :: rest => some (Re.alt a b :: rest)
+        | "T", a :: rest => some (Re.star a :: rest)
+        | "P", a :: rest => some (Re.plus a :: rest)
+        | "O", a :: rest => some (Re.opt a :: rest)
+        | _, _ => none
+  match (s.splitOn ",").foldl step (some []) with
+  | some [r] => some r
+  | _ => none
+
+def parseRuleX (s : String) : Option RuleX :=
+  match s.splitOn "~" with
+  | [o, fl, pf, _go, repl] =>
+    (parseRe pf).map (fun re =>
+      { order := o.toInt?.getD 0, ignore := fl.contains 'i', eachSegment := fl.contains 'e', replaceAll := fl.contains 'a',
+        terminate := fl.contains 't', re := re, repl := hexStr repl })
+  | _ => none
+
+def rulesStepAll (t : Tokens) (impl : Option String) : StepOut :=
+  match tokStr t 1 with
+  | "rx" =>
+    let name := hexStr ((kvGet t "n").getD "-")
+    let items := ((kvGet t "r").getD "").splitOn ";"
+    let rs := items.filterMap parseRuleX
+    if rs.length != items.length then { model := "bad-op" } else
+    let (res, out) := applyRulesX rs name
+    let r := match res with | .matched => "matched" | .unmatched => "unmatched" | .ignore => "ignore"
+    let model := s!"res={r} out={strHex out}"
+    let fails := match impl with
+      | some line => if line == model then [] else
+          [s!"C07 rules: this name and rule list give {line}; leftmost-first matching, back-references and the chain semantics give {model}"]
+      | none => []
+    { model := model, specFails := fails }
+  | _ => rulesStep t impl
